@@ -1,23 +1,33 @@
 // Command panharness drives the Pangaea implementation in /repo for the
 // correspondence checks of /verif. One sub-command per kind of observation;
 // every sub-command reads JSON lines on stdin and writes JSON lines on stdout.
+// Sub-commands register themselves in init() (see intop.go) so that adding one
+// never edits this file.
 package main
 
 import (
 	"fmt"
 	"os"
+	"sort"
 )
 
+var commands = map[string]func(){}
+
+func register(name string, f func()) { commands[name] = f }
+
 func main() {
-	if len(os.Args) < 2 {
-		fmt.Fprintln(os.Stderr, "usage: panharness <subcommand>")
-		os.Exit(2)
+	if len(os.Args) >= 2 {
+		if f, ok := commands[os.Args[1]]; ok {
+			f()
+			stdout.Flush()
+			return
+		}
 	}
-	switch os.Args[1] {
-	case "intop":
-		cmdIntop()
-	default:
-		fmt.Fprintln(os.Stderr, "unknown subcommand", os.Args[1])
-		os.Exit(2)
+	names := []string{}
+	for n := range commands {
+		names = append(names, n)
 	}
+	sort.Strings(names)
+	fmt.Fprintln(os.Stderr, "usage: panharness <subcommand>; known:", names)
+	os.Exit(2)
 }
